@@ -179,7 +179,7 @@ class ZConfigParser:
         if len(parts) == 2:
             defvalue = parts[1]
         if defname in self.defines:
-            if self.defines[defname] != defvalue:
+            if self.defines[defname] != self.replace(defvalue):
                 self.error("cannot redefine " + repr(defname))
         if not isname(defname):
             self.error("not a substitution legal name: " + repr(defname))
